@@ -240,8 +240,8 @@ func (s *diskSM) Update(es []sm.Entry) ([]sm.Entry, error) {
 	return es, nil
 }
 func (s *diskSM) Lookup(q interface{}) (interface{}, error) { return s.lookup(q) }
-func (s *diskSM) Sync() error                                { return nil }
-func (s *diskSM) PrepareSnapshot() (interface{}, error)      { return s.dump(), nil }
+func (s *diskSM) Sync() error                               { return nil }
+func (s *diskSM) PrepareSnapshot() (interface{}, error)     { return s.dump(), nil }
 func (s *diskSM) SaveSnapshot(c interface{}, w io.Writer, _ <-chan struct{}) error {
 	_, err := io.WriteString(w, c.(string))
 	return err
@@ -478,7 +478,7 @@ func applyCorruption(fs hooks.FS, dir string, c string, ssFile string, extFile s
 	default:
 		b := readFile(fs, sp)
 		hdrLen := int(uint64(b[0]) | uint64(b[1])<<8) // marshaled header size (little endian, < 1016)
-		payloadEnd := len(b) - 16 - 4                  // one block: payload | crc(4) | tail(16)
+		payloadEnd := len(b) - 16 - 4                 // one block: payload | crc(4) | tail(16)
 		switch name {
 		case "flip-crc":
 			b = flipAt(b, payloadEnd+arg%4, uint(arg/4))
